@@ -114,6 +114,21 @@ func mutate(t *rapid.T, d jetrun.Delims, src string, other string) (string, stri
 }
 
 func genC02(t *rapid.T) c02Case {
+	if rapid.IntRange(0, 59).Draw(t, "fanIn") == 0 {
+		// a library of templates in which every level refers to the next one twice: each is parsed once, also when
+		// the set has seen them all and the page is handed to Set.Parse (what is remembered is used)
+		n := rapid.IntRange(24, 40).Draw(t, "fanInLevels")
+		c := c02Case{Gen: "fan-in", Mode: "warm-parse", Files: map[string]string{}}
+		for i := 0; i < n; i++ {
+			c.Files[fmt.Sprintf("/l%d.jet", i)] = fmt.Sprintf(`{{import "/l%d.jet"}}{{import "l%d.jet"}}{{block b%d()}}%d{{end}}`, i+1, i+1, i, i)
+		}
+		c.Files[fmt.Sprintf("/l%d.jet", n)] = "{{block last()}}last{{end}}"
+		c.Src = `{{extends "/l0.jet"}}`
+		if rapid.Bool().Draw(t, "fanInViaImport") {
+			c.Src = `{{import "/l0.jet"}}{{import "l1.jet"}}{{yield last()}}`
+		}
+		return c
+	}
 	d := genC02Delims(t)
 	c := c02Case{Delims: d, Mode: "parse"}
 	if rapid.IntRange(0, 4).Draw(t, "mode") == 0 {
